@@ -921,6 +921,18 @@ fn sc_slippage(t: &mut Tracer, ss_decs: [u8; 2], name: &str) {
             w.provide(&a, "o.pss", &sorted(vec![coin(3 * k * d(ss_decs[0]), "uusd"), coin(5 * k * d(ss_decs[1]), "uusdc")]), None, None, None, Some(*tol), None);
         }
     }
+    // a constant-product pool priced 1 : 10: deposits skewed either way are judged against the tolerance, whichever raw amount is larger
+    {
+        let o = w.user(0);
+        let ok = w.creation_funds();
+        w.create_pool(&o, &["uusdc", "uweth"], &[6, 6], fees(0, 0, 0, &[]), CP, Some("oneten"), &ok);
+        w.provide(&a, "o.oneten", &sorted(vec![coin(1_000_000, "uusdc"), coin(10_000_000, "uweth")]), None, None, None, None, None);
+        for (x, y) in [(100_000u128, 1_000_000u128), (100_000, 500_000), (100_000, 950_000), (100_000, 2_000_000), (50_000, 1_000_000), (104_000, 1_000_000)] {
+            for tol in [Decimal::percent(1), Decimal::percent(10), Decimal::percent(60)] {
+                w.provide(&a, "o.oneten", &sorted(vec![coin(x, "uusdc"), coin(y, "uweth")]), None, None, None, Some(tol), None);
+            }
+        }
+    }
     // deposit tolerances: proportional deposit under every tolerance on both pool types; skewed ladder
     let tol_ladder = [Decimal::zero(), Decimal::permille(1), Decimal::percent(1), Decimal::percent(10), Decimal::percent(50), Decimal::percent(100), Decimal::percent(101)];
     for tol in tol_ladder {
@@ -1156,6 +1168,12 @@ fn sc_fee_floor_boundaries(t: &mut Tracer) {
             for ask in [100_000_000_000_000u128, 1_000_000, 123_456_789_012_345_678] {
                 w.rsim("o.big18", &coin(ask, "uusd"), "uweth");
                 w.rsim("o.big18", &coin(ask, "uweth"), "uusd");
+            }
+            // withdrawals of a third, a seventh and a few units of that supply: pro rata to the unit
+            let lpd = w.s.lp_denom("o.big18");
+            let have = w.s.bal(&a, &lpd);
+            for part in [have / 3, have / 7, 12_345, 1] {
+                w.withdraw(&a, "o.big18", &[coin(part, lpd.clone())]);
             }
             w.provide(&a, "o.fine", &[coin(20_000_000_000_001, "uusdc")], None, None, None, None, Some(Decimal::percent(50)));
         }
